@@ -40,7 +40,7 @@ CHECKS = {
  "C07": ("fault_enumeration", "differential runtime monitor at the PCS boundary: native TwoAdicFriPcs/HidingFriPcs verify vs the in-circuit FRI verifier on honest proofs, on every single-leaf mutation of the proof/claims/commitments, on structural mutations of every array node (circuit rebuilt per mutant) and on prover-side faults (deviating challenger; the prover opening one point fewer/more or omitting random-codeword rows with a consistently edited transcript)",
          "Parameter grid (blow-up, queries, arity schedules, final-poly length, PoW bits, batches of mixed heights) with an exhaustive leaf sweep per honest proof; verdict agreement is the oracle.",
          "DESIGN.md §3 C07", TRUSTED),
- "C08": ("fault_enumeration", "differential runtime monitor: native MerkleTreeMmcs / hiding / extension MMCS verify_batch vs the in-circuit opening verifiers on honest openings at every index and on every single alteration (leaf, sibling word, index bit, cap word, salt, row swap)",
+ "C08": ("fault_enumeration", "differential runtime monitor: native MerkleTreeMmcs / hiding / extension MMCS verify_batch vs the in-circuit opening verifiers on honest openings at every index and on every single alteration (leaf, sibling word, index bit, cap word, salt, row swap), for single openings and for sequences of 2-4 openings verified in one circuit (state carried between openings; alteration of the first / middle / last opening)",
          "Random dimension vectors (mixed heights, widths off the hash rate, cap heights, arity 2 and 4, hiding, base/extension leaves) on 13 configurations; every index of every tree.",
          "DESIGN.md §3 C08", TRUSTED),
  "C10": ("exploration", "runtime pipeline monitor: generated programs with satisfying inputs are taken through the real build -> key generation -> run -> prove -> verify under random prover configurations; failures are classified with the bus monitor",
